@@ -415,6 +415,17 @@ def known_k2(ctx, case):
 def check_C01(ctx):
     fields = ["outcome", "trace"]
     cases = spec_cases(ctx, ctx.scale(6000, 60000), observable=False, env_prob=0.25)
+    # "the Action runs iff the line is a sentence" also on an application object that has already parsed another line:
+    # a seventh of the cases run on an object that first ran the previous case's line (same declarations and spec or not:
+    # the spec is assigned before each run); only the verdict and the callbacks are compared here, the variables keep
+    # what the first run wrote
+    # (without environment-backed options: fillContainers clears ValueSetFromEnv of an option given on the line, so on a later
+    # run of the same object that option is no longer satisfied by its environment value -- Q12, history of one object, which
+    # no property quantifies over)
+    for k_ in range(1, len(cases)):
+        if ctx.rng.random() < 0.2 and cases[k_]["root"]["spec"] == cases[k_ - 1]["root"]["spec"] and not cases[k_]["env"] \
+                and not cases[k_ - 1]["env"]:
+            cases[k_]["before"] = {"spec": cases[k_]["root"]["spec"], "argv": list(cases[k_ - 1]["argv"])}
     res = correspond(ctx, cases, fields, "random specs x sentences and mutations")
     st1 = judge_sentences(ctx, cases, res, "C01")
     sc, ns, na = small_scope_cases(ctx, 3, ctx.scale(3, 4), limit=ctx.scale(40000, 400000))
@@ -473,7 +484,8 @@ def check_C01(ctx):
     st3 = judge_sentences(ctx, blank, res3, "C01")
     ctx.stream("specs of blanks and padded specs", 0, **st3)
     ctx.stream("random specs x sentences and mutations", 0, **st1,
-               mutated=sum(1 for c in cases if c.get("_muts")), with_env=sum(1 for c in cases if c["env"]))
+               mutated=sum(1 for c in cases if c.get("_muts")), with_env=sum(1 for c in cases if c["env"]),
+               second_run_of_the_object=sum(1 for c in cases if c.get("before")))
     ctx.stream("small scope", 0, specs=ns, argvs=na, **st2)
     for c in cases[:3]:
         ctx.sample({"spec": c["root"]["spec"], "argv": c["argv"], "env": c["env"],
